@@ -563,12 +563,15 @@ func (t *tr) durationMethod(sel *ast.SelectorExpr, x *ast.CallExpr) (string, boo
 		return "(Go.tdiv " + d + " (1000 : ℤ))", true
 	case "Milliseconds":
 		return "(Go.tdiv " + d + " (1000000 : ℤ))", true
-	case "Seconds":
-		return "(((" + d + " : ℤ) : ℝ) / (1000000000 : ℝ))", true
-	case "Minutes":
-		return "(((" + d + " : ℤ) : ℝ) / (60000000000 : ℝ))", true
-	case "Hours":
-		return "(((" + d + " : ℤ) : ℝ) / (3600000000000 : ℝ))", true
+	case "Seconds", "Minutes", "Hours":
+		unit := map[string]string{"Seconds": "1000000000", "Minutes": "60000000000", "Hours": "3600000000000"}[sel.Sel.Name]
+		if t.round {
+			// float64 reading: the library computes float64(d/unit) + float64(d%unit)/unit (both conversions exact below
+			// 2^53), i.e. two roundings of non-negative quantities; it is read as fl(fl(d)/unit), which has the same
+			// envelope (1 ± u)² around d/unit — all that the error analysis uses
+			return "(fl ((fl ((" + d + " : ℤ) : ℝ)) / (" + unit + " : ℝ)))", true
+		}
+		return "(((" + d + " : ℤ) : ℝ) / (" + unit + " : ℝ))", true
 	}
 	return "", false
 }
